@@ -6,6 +6,7 @@ import FeVerif.Driver.Frame
 import FeVerif.Driver.Indexer
 import FeVerif.Driver.FileIndex
 import FeVerif.Driver.Reader
+import FeVerif.Driver.Extract
 import FeVerif.Driver.Angle
 import FeVerif.Driver.DataVersion
 import FeVerif.Driver.Align
@@ -19,7 +20,7 @@ import FeVerif.Driver.Layout
 namespace FeVerif
 
 def dispatchers : List (String → List String → Option String) :=
-  [dispatchFrame, dispatchIndexer, dispatchFileIndex, dispatchReader, dispatchAngle, dispatchDataVersion, dispatchAlign, dispatchNumpy, dispatchC02, dispatchRtcm, dispatchCrc, dispatchLoader, dispatchLayout]
+  [dispatchFrame, dispatchIndexer, dispatchFileIndex, dispatchReader, dispatchExtract, dispatchAngle, dispatchDataVersion, dispatchAlign, dispatchNumpy, dispatchC02, dispatchRtcm, dispatchCrc, dispatchLoader, dispatchLayout]
 
 def dispatch (line : String) : String :=
   match line.splitOn " " with
